@@ -615,6 +615,10 @@ def check_requires(prog, site_func, site, req):
     g = prog.funcs.get(req.get("func", ""))
     if g is None:
         return False, "guard function %s not found" % req.get("func")
+    try:
+        g = prog.fn(g.key)      # private helpers holding the guard are spliced in
+    except Exception:
+        pass
     oks = g.ok_exit_blocks()
     if kind == "err-guard":
         lhs, rhs, rel = req["lhs"], req["rhs"], req["rel"]
